@@ -4,6 +4,7 @@ import (
 	orbitdb "berty.tech/go-orbit-db"
 	"context"
 	"fmt"
+	"math"
 	"testing"
 
 	"berty.tech/go-orbit-db/iface"
@@ -212,7 +213,8 @@ func execC08(c CaseC08) *Outcome {
 			set bool
 			v   int
 		}
-		amounts := []amt{{false, 0}, {true, 0}, {true, 1}, {true, 2}, {true, n - 1}, {true, n}, {true, n + 3}, {true, -1}, {true, -7}}
+		amounts := []amt{{false, 0}, {true, 0}, {true, 1}, {true, 2}, {true, n - 1}, {true, n}, {true, n + 3}, {true, -1}, {true, -7},
+			{true, math.MaxInt32}, {true, math.MaxInt - 1}, {true, math.MaxInt}, {true, math.MinInt}} // "no limit" idioms
 		for _, a := range c.Amounts {
 			amounts = append(amounts, amt{true, a})
 		}
